@@ -13,9 +13,9 @@ TECH = ('symbolic execution of rustc MIR (mirsym) + z3 over symbolic Files/Deps 
 PLAN = {
     'C02': ['kernel', 'quiet_memo', 'two_phase'],
     'C03': ['kernel', 'should_build', 'stamp', 'unlocked', 'env_inherit', 'record'],
-    'C05': ['kernel', 'set_failed', 'should_build', 'record'],
+    'C05': ['kernel', 'set_failed', 'should_build', 'record', 'job_completion', 'script_args'],
     'C12': ['kernel', 'cycles', 'env_inherit'],
-    'C14': ['kernel', 'ifcreate_always'],
+    'C14': ['kernel', 'ifcreate_always', 'stamp'],
     'C17': ['kernel', 'roles', 'ood'],
 }
 
@@ -53,6 +53,13 @@ def main(pid):
                 depsobl.stamp_facts(chk)
             elif ob == 'unlocked':
                 orchestration.unlocked_reevaluates(chk)
+            elif ob == 'job_completion':
+                from specs import buildjob
+                buildjob.job_completion_blocks(chk, pid)
+            elif ob == 'script_args':
+                from specs import buildjob, buildworld
+                buildworld.install(eng)
+                buildjob.script_arguments(chk, pid)
             elif ob == 'env_inherit':
                 orchestration.inherit_clears_unlocked(chk)
             elif ob == 'set_failed':
